@@ -3,6 +3,7 @@
 Concrete control and heap shape, symbolic scalars.  Path exploration is by
 re-execution with decision prefixes (Explorer).
 """
+import os
 import re
 import sys
 import time
@@ -248,6 +249,11 @@ class Crate:
                 best = best or (mir, name, info)
             elif n == 1 and len(segs) == 1 and len(isegs) == 1:
                 return (mir, name, info)
+            elif (info is not None and info.trait is None and len(segs) >= 2 and len(isegs) >= 2 and info.selfty == segs[-2]
+                  and isegs[-2] == segs[-2] and best is None):
+                # cross-crate reference through a re-export path: `mimium_lang::runtime::vm::Program::get_fun_index`
+                # vs item `vm::program::<impl Program>::get_fun_index`
+                best = (mir, name, info)
             elif len(segs) >= 2 and len(isegs) == 1 and best is None:
                 # reference `module::free_fn` vs item `free_fn`
                 if info is None and not segs[-2][:1].isupper():
@@ -395,7 +401,7 @@ class Interp:
         self.stack = []
         self.const_cache = {}
         self.callee_cache = {}
-        self.trace_calls = False
+        self.trace_calls = bool(os.environ.get("MIRSYM_TRACE"))
         self.functions_used = {}
         self.stubs_used = {}
         self.hooks = {}            # name -> python callable(interp, args) overriding MIR fns
@@ -1551,6 +1557,19 @@ class Interp:
             raise Unsupported('no model and no MIR for callee %s' % callee[:160])
         mir, name, info = target
         body = mir.get(name)
+        if callee.startswith('<&'):
+            # `<&A as PartialEq<&B>>::eq(&&a, &&b)` and friends (core's forwarding impls for references): the resolved body is the
+            # impl for A, which takes &A -- strip the extra reference levels
+            m = re.match(r'<((?:&(?:\'\w+ )?(?:mut )?)+)', callee)
+            extra = m.group(1).count('&') if m else 0
+            tr = callee[:callee.find('>::')] if '>::' in callee else callee
+            if extra and re.search(r' as (?:std::cmp::|core::cmp::)?(PartialEq|PartialOrd|Ord|Eq)\b', tr):
+                def strip(a, n):
+                    for _ in range(n):
+                        if type(a) is Ref and type(a.cont[a.key]) is Ref:
+                            a = a.cont[a.key]
+                    return a
+                args = [strip(a, extra) for a in args]
         return self.call_body(mir, name, body, args, self.bind_generics(mir, name, info, callee, fr))
 
     def resolve_callee(self, callee, args, fr):
